@@ -20,6 +20,11 @@ CLAIMS = {
         "Trusted: symx interception layer, z3, exp2 lemmas. Allelic harness: log2 from an 8-value grid and purity concrete (none/0.3/0.6/0.95) because absolute*baf under round() is nonlinear. Known finding D9 (ploidy 1 non-monotone) is listed in known_findings.json.",
         "DESIGN.md 4/C02",
     ),
+    "C14": (
+        "The real segfilters.cn/ci/sem/ampdel (squash_by_groups, enumerate_changes, squash_region, weighted_median) run on tables of <= 3 segments (4 thorough) over 1-2 chromosomes with symbolic cn, allele-specific cn, CI bounds, sem, log2, weights (0 reachable), probes and gapped coordinates; the run structure is decided by the solver and per path z3 proves: one output per maximal run of equal level, first start / last end, summed probes and weight, weight-averaged log2 (plain mean at zero weight), no merge across chromosomes, conservation of probes/weight, ampdel keeps only cn = 0 or >= 5. Filter lists (every order, at most one of ci/sem) run through the real do_call with symbolic log2: conservation of probes, weight and per-chromosome span, ordered disjoint outputs, neighbours differ in cn, unique index.",
+        "Trusted: symx interception layer incl. the canonical-key groupby patch (hash buckets of pandas are made to respect solver-decided equality), z3. Chain harness uses concrete unequal weights.",
+        "DESIGN.md 4/C14",
+    ),
     "C06": (
         "Every feasible path of the real merge/flatten/subtract/intersection/subdivide/resize_ranges/total_range_size code on tables of <= 3 rows (quick; 4 thorough) with fully symbolic integer coordinates in [0, 10^6] is enumerated by z3; on each path the base-exactness oracle (one universally quantified position x) and the structural clauses are discharged as unsat. A bounded model check of the real code, not a proof: nothing is claimed beyond the row bounds.",
         "Trusted: the symx interception layer (object-dtype pandas semantics = int64 semantics, validated by replaying explored paths on the untouched code), z3; avg/min sizes of subdivide concrete.",
